@@ -386,6 +386,18 @@ def check_c08(tier, seed):
         items.append(msgs_session(len(items), sh, wd, rng.randrange(8), big=rng.random() < 0.3))
         items[-1]["steps"].append({"op": "quiet"})
         meta.append({"family": "burst", "msgs": sh})
+    # the binary as shipped: bursts with more requests in flight than the machine has cores
+    binary = build_binary()
+    nburst = 0
+    for k, nn in ((4, 1), (12, 1), (40, 1), (100, 1), (60, 4)) + (() if quick else ((200, 1), (300, 8), (33, 2), (17, 1))):
+        for rep in range(1 if quick else 3):
+            nburst += 1
+            answered, alive = stdio_burst(binary, os.path.join(wd, "fs", "bin%d_%d_%d" % (k, nn, rep)), k, rng.randrange(8), nn)
+            if answered < k:
+                v.report("C08 binary-burst requests-unanswered in-flight=%s process-%s" % ("<=cores" if k <= (os.cpu_count() or 1) else ">cores",
+                                                                                           "alive" if alive else "died"),
+                         {"requests": k, "answered": answered, "notifications": nn, "cores": os.cpu_count()},
+                         {"binary_burst": {"requests": k, "notifications": nn}})
     log("C08 %s: %d controlled/uncontrolled server runs (%d schedules enumerated by TLC)" % (tier, len(items), nsched))
     recs, _ = common.run_harness(items, wd, "c08", timeout_ms=120000, jobs=8)
     traces = []
@@ -434,7 +446,7 @@ def check_c08(tier, seed):
            "samples": [meta[0], meta[nm + 3], meta[-1]], "exhaustive": False,
            "model_check": mc, "schedules_enumerated_by_tlc": nsched, "model_schedules_replayed": nm,
            "model_schedules_diverged(MODEL-DRIFT)": drift, "hold_runs": sum(1 for m in meta if m["family"] == "hold"),
-           "hold_points_reached": reached, "burst_runs": sum(1 for m in meta if m["family"] == "burst"),
+           "hold_points_reached": reached, "burst_runs": sum(1 for m in meta if m["family"] == "burst"), "binary_stdio_bursts": nburst,
            "explanation": "ServerImpl.tla model-checked (deadlock, liveness under weak fairness, ordering invariants); its maximal behaviours are "
                           "enumerated and a seeded subset replayed on the real server under the hook-controlled scheduler; plus the "
                           "adversarial hold family and uncontrolled bursts; every JSON-RPC trace validated by TraceServer.tla (Answered at Quiet)"}
@@ -448,6 +460,15 @@ def check_c08(tier, seed):
 
 def replay_c08(path):
     d = json.load(open(path))
+    if "binary_burst" in d["replay"]:
+        b = d["replay"]["binary_burst"]
+        wd = common.workdir("replay-C08")
+        answered, alive = stdio_burst(build_binary(), os.path.join(wd, "fs"), b["requests"], 0, b["notifications"])
+        print(json.dumps({"requests": b["requests"], "answered": answered, "process_alive": alive}))
+        if answered < b["requests"]:
+            print("VIOLATION property=C08 replay=%s" % path)
+            return 1
+        return 0
     it = d["replay"]["item"]
     rec = common.run_one(it)
     print(json.dumps({"outcome": rec.get("outcome"), "counters": rec.get("counters"), "diverged": rec.get("diverged"),
@@ -456,3 +477,76 @@ def replay_c08(path):
         print("VIOLATION property=C08 replay=%s" % path)
         return 1
     return 0
+
+
+# ---------------------------------------------------------------------------------------------
+# the binary as shipped, over stdio, uncontrolled
+
+def build_binary():
+    import subprocess
+    td = os.path.join(common.HARNESS, "target", "repo-bin")
+    env = dict(os.environ)
+    env["CARGO_NET_OFFLINE"] = "true"
+    p = subprocess.run(["cargo", "build", "--offline", "--quiet", "-p", "lsp", "--bin", "lsp", "--manifest-path", "/repo/Cargo.toml",
+                        "--target-dir", td], env=env, stdout=subprocess.PIPE, stderr=subprocess.STDOUT, text=True)
+    if p.returncode != 0:
+        raise ToolError("cannot build the lsp binary: " + p.stdout[-1500:])
+    return os.path.join(td, "debug", "lsp")
+
+
+def stdio_burst(binary, d, nreq, rot, nnotif=1, timeout=25.0):
+    """one process: initialize, didOpen, then nreq requests (and more didChange) written in ONE write; returns #answered"""
+    import subprocess
+    import threading
+    import time
+    os.makedirs(d, exist_ok=True)
+    open(os.path.join(d, "b.td"), "w").write("class M_b_0;\n")
+    a_uri = "file://%s/a.td" % d
+
+    def frame(o):
+        b = json.dumps(o).encode()
+        return b"Content-Length: %d\r\n\r\n" % len(b) + b
+    p = subprocess.Popen([binary], stdin=subprocess.PIPE, stdout=subprocess.PIPE, stderr=subprocess.DEVNULL)
+    got = {}
+    done = threading.Event()
+
+    def reader():
+        f = p.stdout
+        while True:
+            h = b""
+            while not h.endswith(b"\r\n\r\n"):
+                c = f.read(1)
+                if not c:
+                    return
+                h += c
+            n = int([l for l in h.decode().split("\r\n") if l.startswith("Content-Length")][0].split(":")[1])
+            body = json.loads(f.read(n))
+            if "id" in body and "method" not in body:
+                got[body["id"]] = True
+                if len(got) >= nreq + 1:
+                    done.set()
+    t = threading.Thread(target=reader, daemon=True)
+    t.start()
+    p.stdin.write(frame({"jsonrpc": "2.0", "id": 0, "method": "initialize", "params": {"capabilities": {}}}))
+    p.stdin.flush()
+    t0 = time.time()
+    while 0 not in got and time.time() - t0 < 10:
+        time.sleep(0.01)
+    buf = frame({"jsonrpc": "2.0", "method": "initialized", "params": {}})
+    buf += frame({"jsonrpc": "2.0", "method": "textDocument/didOpen", "params": {"textDocument": {
+        "uri": a_uri, "languageId": "tablegen", "version": 1, "text": 'include "b.td"\nclass M_a_1 : M_b_0;\n'}}})
+    for i in range(nreq):
+        m, params = REQ_KINDS[(rot + i) % len(REQ_KINDS)]
+        prm = dict(params)
+        prm["textDocument"] = {"uri": a_uri}
+        buf += frame({"jsonrpc": "2.0", "id": i + 1, "method": m, "params": prm})
+        if nnotif > 1 and i % max(1, nreq // nnotif) == 0:
+            buf += frame({"jsonrpc": "2.0", "method": "textDocument/didChange", "params": {"textDocument": {"uri": a_uri, "version": i + 2},
+                          "contentChanges": [{"text": 'include "b.td"\nclass M_a_%d : M_b_0;\n' % (i + 2)}]}})
+    p.stdin.write(buf)
+    p.stdin.flush()
+    done.wait(timeout)
+    answered = len(got) - 1
+    alive = p.poll() is None
+    p.kill()
+    return answered, alive
